@@ -1,15 +1,22 @@
 #!/bin/sh
 # usage: build_model.sh c12   -- extract coq/Extract/C12.v and link build/c12/run
+# The build happens in a scratch directory and the runner is moved into place in one step, so that a check that
+# is running build/c12/run at the moment (C01, C02, C04 and C17 share build/c01) never meets a half-built one.
 set -e
 id="$1"
 ID=$(echo "$id" | tr a-z A-Z)
 root=$(cd "$(dirname "$0")" && pwd)
 d="$root/build/$id"
+t="$root/build/$id.tmp.$$"
 mkdir -p "$d"
-cd "$d"
-rm -f model.ml model.mli main.ml run
+rm -rf "$t"
+mkdir -p "$t"
+trap 'rm -rf "$t"' EXIT
+cd "$t"
 timeout 300 coqc -Q "$root/coq" Eupsv "$root/coq/Extract/$ID.v" > extract.log 2>&1 || { cat extract.log; exit 1; }
 cat "$root/ocaml/prelude.ml" "$root/ocaml/drv_$id.ml" > main.ml
 timeout 300 ocamlfind ocamlopt -w -a -O2 -o run model.mli model.ml main.ml 2> ocaml.log || \
 timeout 300 ocamlfind ocamlopt -w -a -o run model.mli model.ml main.ml 2> ocaml.log || { cat ocaml.log; exit 1; }
+cp -f extract.log ocaml.log model.ml model.mli main.ml "$d/" 2>/dev/null || true
+mv -f run "$d/run"
 echo "built $d/run"
